@@ -13,43 +13,43 @@ import (
 // VerifState is a flat, comparable snapshot of everything a Stack or a
 // Condition holds besides its elements.
 type VerifState struct {
-	Init     bool
-	IsCond   bool
-	Kind     uint8
-	Cap      int
-	Opt      uint16
-	Fifo     bool
-	Sym      string
-	Ljc      string
-	Enc      [][]string
-	ID       string
-	Cat      string
-	HasErr   bool
-	Err      string
-	AuxNil   bool
-	AuxPtr   uintptr
-	AuxLen   int
-	Mtx      bool
-	Locked   bool
-	Ppf      uintptr
-	Vpf      uintptr
-	Rpf      uintptr
-	Eqf      uintptr
-	Lss      uintptr
-	Umf      uintptr
-	Maf      uintptr
-	Evl      uintptr
-	Logger   uintptr
-	Lvl      uint16
-	RawLen   int
-	CfgPtr   uintptr
-	SelfPtr  uintptr
-	Kw       string
-	OpNil    bool
-	OpStr    string
-	OpCtx    string
-	ExNil    bool
-	Elems    []any
+	Init    bool
+	IsCond  bool
+	Kind    uint8
+	Cap     int
+	Opt     uint16
+	Fifo    bool
+	Sym     string
+	Ljc     string
+	Enc     [][]string
+	ID      string
+	Cat     string
+	HasErr  bool
+	Err     string
+	AuxNil  bool
+	AuxPtr  uintptr
+	AuxLen  int
+	Mtx     bool
+	Locked  bool
+	Ppf     uintptr
+	Vpf     uintptr
+	Rpf     uintptr
+	Eqf     uintptr
+	Lss     uintptr
+	Umf     uintptr
+	Maf     uintptr
+	Evl     uintptr
+	Logger  uintptr
+	Lvl     uint16
+	RawLen  int
+	CfgPtr  uintptr
+	SelfPtr uintptr
+	Kw      string
+	OpNil   bool
+	OpStr   string
+	OpCtx   string
+	ExNil   bool
+	Elems   []any
 }
 
 func verifFn(f any) uintptr {
